@@ -797,6 +797,38 @@ def rule_guard_for_each(text, dropped):
     return text
 
 
+def rule_option_or_else(text, dropped):
+    """`RECV.or_else(|| E)` on an Option  ->  `(match RECV { Some(verif_some) => Some(verif_some), None => E })` (soft)"""
+    n = 0
+    while True:
+        if n > 10:
+            raise SliceError('option-or-else: too many rewrites')
+        toks, match = _stmt_tokens(text)
+        target = None
+        for i in range(len(toks) - 5):
+            if (toks[i].text == '.' and toks[i + 1].text == 'or_else' and toks[i + 2].text == '(' and toks[i + 3].text == '|'
+                    and toks[i + 4].text == '|' and toks[i + 4].s == toks[i + 3].e):
+                target = i
+                break
+        if target is None:
+            break
+        i = target
+        r0 = _postfix_start(toks, match, i)
+        close = match[i + 2]
+        recv = text[toks[r0].s:toks[i].s]
+        body = text[toks[i + 4].e:toks[close].s]
+        new = f'(match {recv} {{ Some(verif_some) => Some(verif_some), None => {body} }})'
+        old = text[toks[r0].s:toks[close].e]
+        d = old.count('\n') - new.count('\n')
+        if d < 0:
+            raise SliceError('option-or-else would add lines')
+        text = text[:toks[r0].s] + new + '\n' * d + text[toks[close].e:]
+        n += 1
+    if n:
+        dropped.append(('option-or-else', f'{n}x Option::or_else(closure) written as a match'))
+    return text
+
+
 def rule_lock_scope(text, dropped):
     """Make the lifetime of a shard-lock guard explicit and count it in the ghost variable `verif_locks`.
        `RECV.write().with(|mut NAME| BODY)`  ->  `{ let mut NAME = RECV.verif_lock_write(); proof { verif_locks = verif_locks + 1; }
@@ -943,6 +975,7 @@ RULES = {
     'handle-ctor': rule_handle_ctor,
     'iter-arg': rule_iter_arg,
     'guard-for-each': rule_guard_for_each,
+    'option-or-else': rule_option_or_else,
 }
 
 
